@@ -1,0 +1,34 @@
+/*
+ * Verification hooks (observation only).  Everything in this file, and every use of the
+ * macros it defines, is compiled only when SLU_MT_VERIF is defined; without it the macros
+ * expand to nothing and the library is unchanged.
+ */
+#ifndef __SUPERLU_MT_VERIF
+#define __SUPERLU_MT_VERIF
+
+#ifdef SLU_MT_VERIF
+/* event callback installed by the test harness (NULL = no observation) */
+extern void (*slu_mt_verif_cb)(int ev, long pnum, long a, long b, long c, const void *p);
+#define SLU_VERIF_EV(ev, pnum, a, b, c, p) \
+    do { if (slu_mt_verif_cb) slu_mt_verif_cb((ev), (long)(pnum), (long)(a), (long)(b), (long)(c), (const void *)(p)); } while (0)
+enum {
+    SLU_VEV_SCHED = 1,     /* a=returned panel, b=bcol, c=tasks_remain, p=pxgstrf_shared */
+    SLU_VEV_RELEASE,       /* a=column released */
+    SLU_VEV_DONE,          /* a=panel set DONE */
+    SLU_VEV_THREAD_BEGIN, SLU_VEV_THREAD_END,
+    SLU_VEV_LBUSY,         /* a=jcol, b=bcol in, c=bcol out */
+    SLU_VEV_READ_BEGIN, SLU_VEV_READ_END,   /* a=jcol, b=fsupc, c=krep */
+    SLU_VEV_WAIT_BEGIN, SLU_VEV_WAIT_END,   /* a=jcol, b=kcol */
+    SLU_VEV_NSUPER,        /* a=jcol, b=new supernode number */
+    SLU_VEV_LSUB,          /* a=jcol, b=start in lsub, c=length */
+    SLU_VEV_ALLOC,         /* a=MemType, b=jcol, c=num, p=long[3]{prev_next, limit, fsupc} */
+    SLU_VEV_PIVOT_IN,      /* a=jcol, b=nsupc, c=nsupr, p=verif pivot record */
+    SLU_VEV_PIVOT_OUT,     /* a=jcol, b=pivrow, c=info */
+    SLU_VEV_PRUNE,         /* a=jcol, b=irep, c=new xprune */
+    SLU_VEV_PRE_FINALIZE   /* p=GlobalLU_t* */
+};
+#else
+#define SLU_VERIF_EV(ev, pnum, a, b, c, p)
+#endif
+
+#endif /* __SUPERLU_MT_VERIF */
